@@ -32,3 +32,24 @@ func TestSmoke(t *testing.T) {
 	}
 	fmt.Printf("bad=%d of %d\n", bad, n)
 }
+
+// The simulated socket's copy into the driver's buffer is the driver's access;
+// anything else the harness does on a library goroutine is the harness's.
+func TestRaceAccessClassification(t *testing.T) {
+	driverRead := []string{"runtime.slicecopy", "verifsim.(*simConn).Read", "github.com/Breeze0806/mysql.(*buffer).fill", "github.com/Breeze0806/mysql.(*mysqlConn).readPacket"}
+	if accessInHarness(driverRead) {
+		t.Fatal("copy into the caller's buffer inside simConn.Read classified as harness access")
+	}
+	hook := []string{"verifsim.(*Run).onConsumed", "verifsim.(*simConn).Read", "github.com/Breeze0806/mysql.(*buffer).fill"}
+	if !accessInHarness(hook) {
+		t.Fatal("harness hook called from simConn.Read not classified as harness access")
+	}
+	lib := []string{"github.com/Breeze0806/mysql.(*mysqlConn).writeCommandPacket", "github.com/Breeze0806/mysql.(*mysqlConn).Close"}
+	if accessInHarness(lib) {
+		t.Fatal("library access classified as harness access")
+	}
+	std := []string{"strings.IndexByte", "github.com/Breeze0806/gobinlog.GetStatementCategory"}
+	if accessInHarness(std) {
+		t.Fatal("standard-library frame below a library frame classified as harness access")
+	}
+}
